@@ -560,7 +560,28 @@ if not (np.array_equal(a_explicit, a_global) and np.array_equal(v_explicit, v_gl
     problems.append("explicit parameter object (7/6) while the global orders are 2/3 differs from the global orders set to 7/6: %%.2e / %%.2e" %% (np.abs(a_explicit - a_global).max(), np.abs(v_explicit - v_global).max()))
 if np.array_equal(a_other, a_global):
     problems.append("vacuity: orders 2/3 and 7/6 give identical matrices")
-print("RESULT" + json.dumps(problems))
+# 4. construction-time binding: objects created while the global orders are 7/6 and used after the global orders were changed to 2/3
+G.quadrature.regular, G.quadrature.singular = 7, 6
+pot_early = plaplace.single_layer(dp0, pts)                      # created, not yet evaluated
+pot_twice = plaplace.single_layer(dp0, pts)
+v_first = pot_twice.evaluate(api.GridFunction(dp0, coefficients=x)).ravel()
+op_early = laplace.single_layer(dp0, p1, p1)                     # created, not yet assembled
+op_assembled = laplace.single_layer(dp0, p1, p1)
+w_first = op_assembled.weak_form() @ x
+G.quadrature.regular, G.quadrature.singular = 2, 3
+v_early = pot_early.evaluate(api.GridFunction(dp0, coefficients=x)).ravel()
+v_second = pot_twice.evaluate(api.GridFunction(dp0, coefficients=x)).ravel()
+if not np.array_equal(v_second, v_first):
+    problems.append("a potential operator evaluated again after the global orders were changed returns other values (%%.2e)" %% np.abs(v_second - v_first).max())
+if not np.array_equal(v_early, v_global):
+    problems.append("a potential operator created under the global orders 7/6 and first evaluated after they were changed to 2/3 differs from the 7/6 values (%%.2e)" %% np.abs(v_early - v_global).max())
+if not np.array_equal(op_assembled.weak_form() @ x, w_first):
+    problems.append("an assembled boundary operator changes when the global orders are changed afterwards")
+lazy = []
+if not np.array_equal(op_early.weak_form() @ x, a_global):
+    lazy.append("a boundary operator created with parameters=None under the global orders 7/6 and first assembled after they were changed to 2/3 has the 2/3 matrix "
+                "(deviation %%.2e from the 7/6 matrix a fresh process computes)" %% np.abs(op_early.weak_form() @ x - a_global).max())
+print("RESULT" + json.dumps({"problems": problems, "lazy": lazy}))
 '''
 
 
@@ -569,9 +590,24 @@ def replay_parameter_objects():
     p = subprocess.run([sys.executable, "-c", PARAMETER_SCRIPT % {"verif": VERIF}], capture_output=True, text=True, env=env, timeout=600)
     for line in p.stdout.splitlines():
         if line.startswith("RESULT"):
-            probs = json.loads(line[6:])
-            return {"violates": bool(probs), "problems": probs}
-    return {"violates": True, "problems": ["the scripted session raised: %s" % (p.stderr or p.stdout)[-500:]]}
+            res = json.loads(line[6:])
+            return {"violates": bool(res["problems"]), "problems": res["problems"], "lazy": res["lazy"]}
+    return {"violates": True, "problems": ["the scripted session raised: %s" % (p.stderr or p.stdout)[-500:]], "lazy": []}
+
+
+def replay_lazy_binding():
+    r = replay_parameter_objects()
+    return {"violates": bool(r["lazy"]), "observed": r["lazy"]}
+
+
+def ob_lazy_binding():
+    """bounded (fresh interpreter): "determined by ... the parameter object given at construction ... later changes of the global parameters leave them equal to what a fresh
+    process computes" for a boundary operator that was created (parameters=None) but not yet assembled when the global orders are changed."""
+    r = replay_parameter_objects()
+    if r["lazy"]:
+        return violated(r["lazy"][0], witness={"history": ["set global orders 7/6", "create operator (parameters=None)", "set global orders 2/3", "weak_form"]},
+                        signature="lazy-global-binding/boundary-operator", replay={"callable": "checks.c18:replay_lazy_binding", "kwargs": {}, "confirmed": True, "result": r["lazy"]})
+    return held("a boundary operator created before a change of the global orders is assembled with the orders of its construction")
 
 
 def ob_parameter_objects():
@@ -582,7 +618,7 @@ def ob_parameter_objects():
     if r["violates"]:
         return violated("parameter objects are not independent / not honoured like the same global values: %s" % r["problems"][:3], witness={"problems": r["problems"]},
                         signature="parameter-objects", replay={"callable": "checks.c18:replay_parameter_objects", "kwargs": {}, "confirmed": True, "result": r})
-    return held("explicit, global and fresh parameter objects are independent; explicit 7/6 == global 7/6 bitwise (dense matrix action, potential)")
+    return held("explicit, global and fresh parameter objects are independent; explicit 7/6 == global 7/6 bitwise (dense matrix action, potential); potentials and assembled operators keep the orders of their construction")
 
 
 def ob_precision():
@@ -628,6 +664,7 @@ def main():
         run.add("history[%d]" % i, "bounded", ob_history, i)
     run.add("precision.single-vs-double", "bounded", ob_precision)
     run.add("parameter-objects.independent+honoured-like-global", "bounded", ob_parameter_objects)
+    run.add("construction-time-binding.boundary-operator(parameters=None)", "bounded", ob_lazy_binding)
     run.functions["bempp_cl (all modules, AST scan)"] = {"sha256_16": "n/a", "dropped": "dynamic aliasing of the global objects is not tracked (textual reads only)"}
     run.bound("histories: %d scripted sequences over 10 actions (create/assemble dense & FMM operators, strong form, change global quadrature / FMM parameters, clear_fmm_cache, "
               "create space, mass matrix, FMM potential), exafmm = exact-sum stub, compared with a fresh interpreter" % (len(HISTORIES) - 1))
